@@ -145,6 +145,139 @@ def run_case(cfg, ops, cut, tail, scratch):
     return problems, steps, recs, orig
 
 
+# ---------------------------------------------------------------- configurations outside the integer-key model
+def _special_builders():
+    """(label, build(scratch) -> (decorator factory or decorated-function factory))
+    Every builder returns a function mk(path) -> decorated function with a fresh evaluation log."""
+    import klepto
+    import klepto.safe
+    import klepto.keymaps as km
+    import klepto.archives as ar
+    from klepto.keymaps import SENTINEL
+    out = []
+
+    def fn(x, y=2, *rest, **kw):
+        return ('r', x, y, len(rest), sorted(kw))
+    algs = ['lru_cache', 'lfu_cache', 'mru_cache', 'inf_cache', 'no_cache']
+    for ai, name in enumerate(algs):
+        for mod in (klepto, klepto.safe):
+            cls = getattr(mod, name)
+            bounded = name not in ('inf_cache', 'no_cache')
+            base = {'maxsize': 3} if bounded else {}
+            tag = '%s.%s' % (mod.__name__, name)
+            # sentinel-marked keymaps (the sentinel object is part of raw keys / hashed keys)
+            out.append((tag + ' hashmap(sentinel=SENTINEL)', lambda p, cls=cls, base=base: cls(keymap=km.hashmap(sentinel=SENTINEL, flat=True), **base)(fn)))
+            out.append((tag + ' keymap(sentinel=SENTINEL)', lambda p, cls=cls, base=base: cls(keymap=km.keymap(sentinel=SENTINEL, flat=True), **base)(fn)))
+            # ignore= leaves the NULL marker in raw keys
+            out.append((tag + " keymap() ignore='y'", lambda p, cls=cls, base=base: cls(keymap=km.keymap(flat=True), ignore='y', **base)(fn)))
+            out.append((tag + " hashmap() ignore=('y','**')", lambda p, cls=cls, base=base: cls(keymap=km.hashmap(flat=True), ignore=('y', '**'), **base)(fn)))
+            # tolerance 0 (falsy!) and 1, deep
+            out.append((tag + ' tol=0', lambda p, cls=cls, base=base: cls(keymap=km.hashmap(flat=True), tol=0, **base)(fn)))
+            out.append((tag + ' tol=1 deep', lambda p, cls=cls, base=base: cls(keymap=km.stringmap(flat=False), tol=1, deep=True, **base)(fn)))
+            # archives with non-default settings behind the cache
+            if ai % 2 == 0 or bounded:
+                out.append((tag + ' dir_archive(protocol=json) stringmap', lambda p, cls=cls, base=base: cls(
+                    cache=ar.dir_archive(p + '.dj', cached=True, protocol='json'), keymap=km.stringmap(flat=True), **base)(_jsonable)))
+                out.append((tag + ' dir_archive(compression=3)', lambda p, cls=cls, base=base: cls(
+                    cache=ar.dir_archive(p + '.dc', cached=True, compression=3), keymap=km.hashmap(flat=True), **base)(fn)))
+                out.append((tag + ' file_archive(protocol=json)', lambda p, cls=cls, base=base: cls(
+                    cache=ar.file_archive(p + '.json', cached=True, protocol='json'), keymap=km.stringmap(flat=True), **base)(_jsonable)))
+                out.append((tag + ' file_archive(serialized=False)', lambda p, cls=cls, base=base: cls(
+                    cache=ar.file_archive(p + '.py', cached=True, serialized=False), keymap=km.stringmap(flat=True), **base)(_jsonable)))
+    return out
+
+
+def _jsonable(x, y=2, *rest, **kw):
+    return [str(x), str(y), len(rest), sorted(kw)]
+
+
+SPECIAL_CALLS_1 = [((1,), {}), ((2, 3), {}), ((1,), {'y': 5}), ((2.26,), {}), ((4, 2, 9), {'z': 1}), ((1,), {})]
+SPECIAL_CALLS_2 = [((1,), {'y': 5}), ((2, 3), {}), ((7,), {}), ((2.31,), {}), ((1,), {}), ((8,), {'y': 1}), ((9,), {}), ((2.26,), {}),
+                   ((4, 2, 9), {'z': 1}), ((1, 6), {}), ((2,), {'y': 3})]
+
+
+def _drive(f, calls):
+    import random as _r
+    out = []
+    for a, k in calls:
+        try:
+            r = f(*a, **k)
+        except Exception as e:
+            r = ('EXC', type(e).__name__)
+        out.append((repr(r), tuple(f.info())))
+    return out
+
+
+def special_sessions(scratch, which=None):
+    """reference run (no pickling) against a run with a dill round trip in the middle, and a round trip of the
+    DECORATOR object itself; returns problems"""
+    import dill
+    import random as _r
+    problems = []
+    n = 0
+    for label, mk in _special_builders():
+        if which is not None and which not in label:
+            continue
+        n += 1
+        try:
+            ref = mk(scratch.new(''))
+            _drive(ref, SPECIAL_CALLS_1)
+            ref.dump() if hasattr(ref, 'dump') else None
+            _r.seed(99)
+            want = _drive(ref, SPECIAL_CALLS_2)
+            want_keys = sorted(map(repr, ref.__cache__().keys()))
+            f = mk(scratch.new(''))
+            _drive(f, SPECIAL_CALLS_1)
+            f.dump() if hasattr(f, 'dump') else None
+            g = dill.loads(dill.dumps(f))
+            _r.seed(99)
+            got = _drive(g, SPECIAL_CALLS_2)
+            got_keys = sorted(map(repr, g.__cache__().keys()))
+        except Exception as e:
+            problems.append({'label': label, 'what': '%s: the session failed: %s: %s' % (label, type(e).__name__, e)})
+            continue
+        if got != want:
+            i = [j for j in range(len(want)) if got[j] != want[j]][0]
+            problems.append({'label': label, 'what': '%s: after the round trip call %d f%r gives %s info=%r, the function that was never pickled gives %s info=%r' % (
+                label, i, SPECIAL_CALLS_2[i], got[i][0][:60], got[i][1], want[i][0][:60], want[i][1])})
+        elif got_keys != want_keys:
+            problems.append({'label': label, 'what': '%s: cache keys after the continuation differ: %r vs %r' % (label, got_keys[:4], want_keys[:4])})
+    # ---- the decorator object itself (not yet applied to a function)
+    import klepto
+    import klepto.safe
+    import klepto.keymaps as km
+    for mod in (klepto, klepto.safe):
+        for name in ('lru_cache', 'lfu_cache', 'mru_cache', 'rr_cache', 'inf_cache', 'no_cache'):
+            if which is not None and which not in 'decorator-object':
+                continue
+            cls = getattr(mod, name)
+            bounded = name not in ('inf_cache', 'no_cache')
+            for kw in ([{'maxsize': 3, 'purge': True, 'tol': 0, 'ignore': ('y',)}, {'maxsize': 2, 'purge': False, 'tol': 1, 'deep': True}] if bounded
+                       else [{'tol': 0, 'ignore': ('y',)}, {'tol': 1, 'deep': True}]):
+                n += 1
+                label = '%s.%s(%s) decorator-object' % (mod.__name__, name, ', '.join('%s=%r' % kv for kv in kw.items()))
+                try:
+                    import klepto.archives as _ar
+                    d1 = cls(keymap=km.hashmap(flat=True), cache=_ar.dict_archive('deco', cached=True), **kw)
+                    d2 = dill.loads(dill.dumps(d1))
+
+                    def fa(x, y=2, *rest, **k2):
+                        return ('r', x, y, len(rest), sorted(k2))
+                    f1, f2 = d1(fa), d2(fa)
+                    _r.seed(5)
+                    want = _drive(f1, SPECIAL_CALLS_1 + SPECIAL_CALLS_2)
+                    _r.seed(5)
+                    got = _drive(f2, SPECIAL_CALLS_1 + SPECIAL_CALLS_2)
+                except Exception as e:
+                    problems.append({'label': label, 'what': '%s: round trip of the decorator failed: %s: %s' % (label, type(e).__name__, e)})
+                    continue
+                if got != want:
+                    i = [j for j in range(len(want)) if got[j] != want[j]][0]
+                    problems.append({'label': label, 'what': '%s: the restored decorator behaves differently at call %d: %s info=%r vs %s info=%r' % (
+                        label, i, got[i][0][:50], got[i][1], want[i][0][:50], want[i][1])})
+    return problems, n
+
+
 def one(prop_seed, idx, thorough, scratch):
     rng = random.Random('C20-%d-%d' % (prop_seed, idx))
     focus = {'backends': PICKLABLE_BACKENDS, 'p_special': 0.0, 'p_raising': 0.2, 'p_float': 0.35,
@@ -234,6 +367,23 @@ def main():
             rep.violation('continuation of the original disagrees with the model on %s' % r['div']['field'],
                           {'cfg': r['cfg'], 'trace_index': r['idx'], 'seed': sd, 'divergence': r['div'],
                            'broken': 'per-step conformance with coq/Cache/CacheCore.v'}, no_input=True)
+    # ---- configurations the integer-key model does not cover: sentinels, ignore markers, tolerances, archive settings
+    sp_n = 0
+    if pinfo.get('build_ok'):
+        sc = Scratch()
+        try:
+            sp_problems, sp_n = special_sessions(sc)
+        except Exception as e:
+            sp_problems = [{'label': 'harness', 'what': 'special sessions failed: %r' % e}]
+        finally:
+            sc.close()
+        shown = set()
+        for pr in sp_problems:
+            k2 = pr['label'].split(' ', 1)[-1][:25]
+            if k2 in shown or len(shown) > 5:
+                continue
+            shown.add(k2)
+            rep.violation('C20: ' + pr['what'][:500], {'special_session': pr['label'], 'calls_before': SPECIAL_CALLS_1, 'calls_after': SPECIAL_CALLS_2, 'seed': sd})
     if not proof_ok:
         rep.violation('proof obligation no longer checks: %s' % (pinfo.get('log') or pinfo.get('build_log')),
                       {'broken': 'coq/Props/C20.v'}, no_input=True)
@@ -248,7 +398,7 @@ def main():
            'evaluations': len(results), 'distinct_nontrivial': len({json.dumps([r['cfg'], r.get('cut')], sort_keys=True, default=repr) for r in results if r.get('steps', 0) >= 3}),
            'rule': 'one evaluation = (configuration, history, cut point): dill round trip at the cut, lock-step continuation, independence phase; non-trivial = at least 3 lock-step steps',
            'traces_validated_against_impl': len([r for r in results if 'error' not in r and not r['problems'] and not r['div']]),
-           'lockstep_steps': steps, 'configurations': len(cfgs), 'cut_positions': cuts,
+           'lockstep_steps': steps, 'configurations': len(cfgs), 'cut_positions': cuts, 'special_sessions': sp_n,
            'samples': [r['sample'] for r in results if r.get('sample')][:3] or [{'note': 'none'}]}
     write_evidence(prop, 'other', cov, time.time() - t0, len(rep.violations),
                    ['dill copies the closure by value', 'sqlite-backed archives cannot be pickled and are outside this property'])
